@@ -26,7 +26,7 @@ MANIFEST = {
               "independently and the mode is fixed at construction (no writer of `inner` other than the constructors and lock)."),
     "note": ("Trusted: rustc front end and trait resolution; the Strip arm's behaviour is the subject of C01/C06. Not analysed: the "
              "cfg(windows) arms (no Windows target installed)."),
-    "technique": "static analysis: constructor/dispatch table extraction, per-arm forwarding rule with resolved callees, value-flow rule for to_adapted_string, who-may-write on the mode field",
+    "technique": "static analysis: abstract evaluation of the constructors per ColorChoice, per-arm forwarding rule with resolved callees, value-flow rule for to_adapted_string, who-may-write on the mode field",
 }
 
 A = "anstream::auto::AutoStream::<S>::"
